@@ -202,6 +202,7 @@ impl<'a> Gen<'a> {
             map_cap0,
             set_cap0,
             full_check_every: 1,
+            chaos: None,
         }
     }
 
